@@ -441,6 +441,44 @@ def gen_states(ctx, module, cfg, coverage=True, timeout=900, dot=False):
     return states, r
 
 
+class JobFailed(Exception):
+    """a job of a check ended in an exception; .from_library says whether it was raised inside gaftools (or below it, in a call
+    gaftools made) - then it is what the implementation did on that input, not a failure of the machinery"""
+
+    def __init__(self, info):
+        Exception.__init__(self, info["exc"])
+        self.info = info
+
+
+class _Guarded:
+    """picklable wrapper: the job's exception comes back as data instead of breaking the pool"""
+
+    def __init__(self, fn):
+        self.fn = fn
+        self.__module__ = getattr(fn, "__module__", "")
+        self.__name__ = getattr(fn, "__name__", "job")
+
+    def __call__(self, x):
+        try:
+            return self.fn(x)
+        except BaseException as e:  # noqa
+            import traceback
+
+            frames = traceback.extract_tb(e.__traceback__)
+            lib = os.path.join(REPO, "gaftools") + os.sep
+            return {"__job_failed__": True, "exc": f"{type(e).__name__}: {e}"[:160],
+                    "from_library": any(os.path.abspath(f.filename).startswith(lib) for f in frames),
+                    "where": [f"{os.path.basename(f.filename)}:{f.lineno}:{f.name}" for f in frames][-6:],
+                    "job": repr(x)[:600]}
+
+
+def _raise_job_failures(res):
+    for r in res:
+        if isinstance(r, dict) and r.get("__job_failed__"):
+            raise JobFailed(r)
+    return res
+
+
 def pool_map(fn, items, procs=None, chunk=8):
     """Run fn over items in a fork pool (fn must be a module-level function)."""
     import multiprocessing as mp
@@ -448,7 +486,8 @@ def pool_map(fn, items, procs=None, chunk=8):
 
     procs = procs or NCPU
     if len(items) < 4 or procs == 1:
-        return [fn(x) for x in items]
+        g = _Guarded(fn)
+        return _raise_job_failures([g(x) for x in items])
     # a sample of the jobs (about 6 %, at least 6, spread over the list) runs in an interpreter started with -O and another
     # hash seed: behaviour must not depend on assert statements being executed, nor on the hash seed
     opt_idx = sorted(set(range(0, len(items), max(1, len(items) // max(6, len(items) // 16)))))[:120] if os.environ.get("VERIF_NO_OPT") != "1" else []
@@ -473,7 +512,7 @@ def pool_map(fn, items, procs=None, chunk=8):
         th.start()
     # executor workers are not daemonic, so a job may itself start processes (gaftools realign)
     with ProcessPoolExecutor(max_workers=procs, mp_context=mp.get_context("fork")) as ex:
-        res = list(ex.map(fn, items, chunksize=chunk))
+        res = list(ex.map(_Guarded(fn), items, chunksize=chunk))
     if opt_proc is not None:
         th.join(1800)
         out = box.get("out", b"")
@@ -482,7 +521,7 @@ def pool_map(fn, items, procs=None, chunk=8):
             raise MachineryError("the -O worker failed: " + (box.get("err", b"")[-400:].decode(errors="replace")))
         for k, r in zip(opt_idx, pickle.loads(out[mark + 12:])):
             res[k] = _mark_opt(r)       # the result obtained under -O replaces the ordinary one for that job
-    return res
+    return _raise_job_failures(res)
 
 
 def _mark_opt(r):
